@@ -157,7 +157,29 @@ def eval_case(ctx, cls, opt, n, keys, amps, types="complex", meta=None):
         ctx.violation(f"{cls}: the construction did not terminate within 300 s (instances of this size take about a second)", case)
         return False
     except Exception as exc:
-        ctx.violation(f"{cls} raised {type(exc).__name__}: {str(exc)[:120]}", case)
+        if type(exc).__name__ == "QiskitError" and "TwoQubitWeylDecomposition" in str(exc):
+            # Qiskit's private _apply_a2 (two-qubit re-synthesis inside qclib.unitary, reached by the dense low-rank stage): the same
+            # defect as C01-qiskit-apply-a2 if the same construction is exact once _apply_a2 is the identity
+            import qclib.unitary as qu
+            orig = qu._apply_a2
+            try:
+                qu._apply_a2 = lambda circuit: circuit
+                d2 = make_gate(cls, params, opt).definition
+                sv2 = np.asarray(Statevector(d2).data)
+                _, index_of2 = layout(cls, eff, n, m)
+                ref2 = np.zeros(len(sv2), dtype=complex)
+                for k_, a_ in zip(keys, amps):
+                    ref2[index_of2(k_)] = a_
+                if float(np.abs(sv2 - ref2).max()) < 1e-9:
+                    case["cause"] = "qiskit_apply_a2"
+            except (KeyboardInterrupt, SystemExit):
+                raise
+            except BaseException:  # noqa: BLE001
+                pass
+            finally:
+                qu._apply_a2 = orig
+        ctx.violation(f"{cls} raised {type(exc).__name__}: {str(exc)[:120]}"
+                      + (" [cause: exact when qiskit's _apply_a2 is the identity]" if case.get("cause") == "qiskit_apply_a2" else ""), case)
         return False
     if not np.all(np.isfinite(sv)):
         ctx.violation(f"{cls}: output state contains NaN/inf", case)
